@@ -1017,6 +1017,45 @@ def directed_far():
     return cases
 
 
+def directed_large_k():
+    """fixed part of every run: a quarter-turn count is a count modulo 4, however large (250 = np.uint8(-6),
+    1002, 2**40+1, negative ones, numpy integer types): same acceptance and same state as k mod 4, on a region,
+    on the mesh with subregions whose tolerance tests used to refuse k = 250, and on a field"""
+    subs = [["b", [[S(F(-67, 2)), S(F(-1, 4))], [S(F(-35, 2)), S(F(15, 4))]]],
+            ["a", [[S(F(-35, 2)), S(F(-25, 4))], [S(F(-3, 2)), S(F(-17, 4))]]]]
+    roots = [
+        dict(type="mesh", p1=[S(F(-67, 2)), S(F(-25, 4))], p2=[S(F(-3, 2)), S(F(15, 4))], dims=["x", "y"],
+             units=["s", "um"], n=[2, 5], bc="", subs=subs),
+        dict(type="region", p1=[S(0), S(0), S(0)], p2=[S(4), S(2), S(1)], dims=["x", "y", "z"],
+             units=["m", "nm", "s"]),
+        dict(type="region", p1=[S(F(-93, 8)), S(F(-57, 8)), S(-14)], p2=[S(F(-81, 8)), S(F(-25, 4)), S(F(-221, 16))],
+             dims=["x", "y", "z"], units=["m", "m", "m"]),
+        dict(_froot("xyz", [4, 2, 1], [4, 2, 1], 3,
+                    subs=[["a", [[S(0), S(0), S(0)], [S(2), S(2), S(1)]]]])),
+    ]
+    counts = [(250, None), (250, "uint8"), (1002, None), (1002, "int32"), (2 ** 40 + 1, None), (2 ** 40 + 1, "int64"),
+              (-(2 ** 40) - 1, None), (-1002, None), (251, "uint8"), (2 ** 40 + 2, "uint64")]
+    cases = []
+    for root in roots:
+        d = root["dims"]
+        nd = len(d)
+        far = seq([F(-917504), F(8192)] + [F(-262144)] * (nd - 2), "list")
+        for i, (k, rep) in enumerate(counts):
+            for ref in ([dict(t="none"), far] if not root.get("subs") else [dict(t="none"), seq([F(1, 2)] * nd)]):
+                kk = dict(t="int", v=k, rep=rep)
+                if rep in ("uint8",):
+                    kk = dict(t="int", v=k, rep=rep)      # k_py reduces modulo 256: same turn
+                steps = [dict(op="rotate", ax1=d[0], ax2=d[1], k=kk, ref=ref, ip=(i % 2 == 0), cls="large-k"),
+                         dict(op="rotate", ax1=d[1], ax2=d[0], k=dict(t="int", v=4, rep=None),
+                              ref=seq([F(11, 4), F(3, 4)] + [F(9, 4)] * (nd - 2), "array"), ip=(i % 2 == 1),
+                              cls="large-k"),
+                         dict(op="rotate", ax1=d[0], ax2=d[1], k=dict(t="int", v=k % 4, rep=None), ref=ref,
+                              ip=(i % 2 == 1), cls="large-k")]
+                cases.append(dict(kind="history", root=root, steps=steps, tame=bool(root.get("subs")),
+                                  directed="large-k"))
+    return cases
+
+
 def directed_nonfinite():
     """fixed part of every run: NaN / +inf / -inf (Python float, numpy float32 / float64) in every argument
     position of every operation, on a region, a 1-d region, a mesh with subregions and two fields, in both
@@ -1157,17 +1196,6 @@ def state_ok(s, tame, rot_seen):
     return True
 
 
-def tame_k(st, tame):
-    """np.uint8(k % 256) turns a negative k into a count near 250, and the implementation evaluates
-    cos/sin(k*pi/2) with an error that grows with k (times the distance to the reference point): the subregion
-    setter's tolerance tests refuse such turns and, about a far reference point, the error outlives the 1e-9
-    comparison of later steps; such counts are kept out of the compared stream (reported separately)"""
-    if st.get("op") == "rotate" and st["k"].get("t") == "int" and (st["k"].get("rep") or "").startswith("u") \
-            and st["k"]["v"] < 0:
-        st["k"] = dict(st["k"], rep=None)
-    return st
-
-
 def gen_history(rng, typ, tier, length, p_bad, integer=False):
     root = gen_root(rng, typ, tier, integer)
     s = root_sim(root)
@@ -1178,7 +1206,6 @@ def gen_history(rng, typ, tier, length, p_bad, integer=False):
         if typ == "field" and rng.random() < 0.2:
             st = unmapped_rot_step(rng, s)
             if st is not None:
-                st = tame_k(st, tame)
                 st["ip"] = rng.random() < 0.7
                 steps.append(st)
                 continue
@@ -1189,7 +1216,6 @@ def gen_history(rng, typ, tier, length, p_bad, integer=False):
             continue
         for attempt_ in range(12):
             st = gen_int_step(rng, s) if (integer and rng.random() < 0.85) else gen_valid_step(rng, s, tame)
-            st = tame_k(st, tame)
             nxt = sim_state(s, st)
             if nxt is not None and state_ok(nxt, tame, rot_seen or st["op"] == "rotate"):
                 break
@@ -1341,7 +1367,7 @@ def directed_integer():
 
 def generate(rng, tier):
     quick = tier == "quick"
-    cases = directed_refusals() + directed_integer() + directed_nonfinite()
+    cases = directed_refusals() + directed_integer() + directed_nonfinite() + directed_large_k()
     # directed single steps: every factor sign x form x reference on a fixed region (exact regime)
     for f in [F(-1), F(-2), F(-1, 2), F(0), F(3)]:
         for ref in [dict(t="none"), seq([F(0), F(0), F(0)]), seq([F(2 ** 20), F(-3 * 2 ** 18), F(5)])]:
